@@ -106,7 +106,7 @@ def check(v, scs, d, cat, obs, sel_model, fails, nselects):
         nums = [int(x) for x in re.findall(r'\d+', o['label'])]
         if nums != ids[:3] or (len(ids) > 3) != o['label'].endswith('...'):
             fails.append('slot %d label %r does not name %s' % (slot, o['label'], ids[:3]))
-        want_pts = sorted(rows[i] for i in want_lines)
+        want_pts = sorted(rows[i] for i in want_lines if i in rows)
         for k, pts in enumerate(o['scatter']):
             if pts is None or len(pts) != len(want_pts) or any(abs(a[0] - b[0]) > 1e-9 or abs(a[1] - b[1]) > 1e-9 for a, b in zip(pts, want_pts)):
                 fails.append('slot %d: scatter view %d highlights %s, catalog rows of %s are %s' % (slot, k, pts, want_lines, want_pts))
@@ -141,6 +141,12 @@ def explore(ctx):
             if len(d) == 0:
                 continue
             cat = (ppv_catalog if three_d else pp_catalog)(d, {'data_unit': u.Jy}, fields=['x_cen', 'y_cen'], verbose=False)
+            if len(d) >= 3 and rng.random() < 0.25:
+                # a catalog of some of the structures only (the leaves, or a random subset): structures without a row
+                # can be selected by clicks and picks, and simply have no point to highlight
+                subset = list(d.leaves) if rng.random() < 0.5 else rng.sample(list(d._structures_dict.values()), max(1, len(d) // 2))
+                cat = (ppv_catalog if three_d else pp_catalog)(subset, {'data_unit': u.Jy}, fields=['x_cen', 'y_cen'], verbose=False)
+                info['subset_catalog'] = sorted(int(s.idx) for s in subset)
             if len(cat) >= 3 and rng.random() < 0.35:
                 # a catalog column may hold NaN (a statistic that is undefined for some structures): such rows can
                 # never be lassoed, and the rows after them still belong to their own structures
